@@ -21,7 +21,9 @@ static char *g_ref_tok[MAXK][MAXT];   /* per key and per thread id: every thread
 static int g_nthreads;
 static int g_deterministic[MAXK];
 static long g_mismatch;
-static pthread_barrier_t g_bar;
+static pthread_barrier_t g_bar, g_bar_end;
+static int g_cold = 4;
+static jwk_set_t *g_ref_set;
 
 static int is_det(jwt_alg_t a)
 {
@@ -60,6 +62,9 @@ static void *worker(void *arg)
 	unsigned seed = (unsigned)(size_t)arg;
 	int tid = (int)(seed % 1000);
 	long bad = 0;
+	for (int cold = 0; cold < g_cold; cold++) {
+	/* every cold round starts on a keyring no thread (not even main) has used yet, so that anything a
+	 * key item computes lazily on first use is computed under contention */
 	pthread_barrier_wait(&g_bar);
 	usleep(rand_r(&seed) % 300);                 /* randomised start skew */
 	for (int r = 0; r < g_rounds; r++) {
@@ -77,6 +82,8 @@ static void *worker(void *arg)
 			free(tok);
 		}
 	}
+	pthread_barrier_wait(&g_bar_end);
+	}
 	__atomic_add_fetch(&g_mismatch, bad, __ATOMIC_SEQ_CST);
 	return NULL;
 }
@@ -89,6 +96,7 @@ int main(int argc, char **argv)
 	g_nthreads = nthreads;
 	g_rounds = atoi(argv[3]);
 	if (jwt_set_crypto_ops(argv[4])) { fprintf(stderr, "no such provider\n"); return 2; }
+	if (argc > 6) g_cold = atoi(argv[6]);
 	g_set = jwks_create_fromfile(argv[1]);
 	if (!g_set || jwks_error(g_set) || jwks_error_any(g_set)) { fprintf(stderr, "cannot load keys\n"); return 2; }
 	g_nkeys = (int)jwks_item_count(g_set) / 2;
@@ -102,9 +110,22 @@ int main(int argc, char **argv)
 		}
 	}
 	pthread_t th[MAXT];
-	pthread_barrier_init(&g_bar, NULL, (unsigned)nthreads);
+	/* the reference tokens were made with this keyring; the threads get fresh ones */
+	g_ref_set = g_set;
+	g_set = NULL;
+	pthread_barrier_init(&g_bar, NULL, (unsigned)nthreads + 1);
+	pthread_barrier_init(&g_bar_end, NULL, (unsigned)nthreads + 1);
 	for (int i = 0; i < nthreads; i++) pthread_create(&th[i], NULL, worker, (void *)(size_t)(atoi(argv[5]) * 1000 + i));
+	for (int cold = 0; cold < g_cold; cold++) {
+		g_set = jwks_create_fromfile(argv[1]);
+		if (!g_set || jwks_error(g_set) || jwks_error_any(g_set)) { fprintf(stderr, "cannot load keys\n"); return 2; }
+		pthread_barrier_wait(&g_bar);
+		pthread_barrier_wait(&g_bar_end);
+		jwks_free(g_set);
+		g_set = NULL;
+	}
 	for (int i = 0; i < nthreads; i++) pthread_join(th[i], NULL);
+	g_set = g_ref_set;
 	printf("threads=%d rounds=%d keys=%d provider=%s mismatches=%ld\n", nthreads, g_rounds, g_nkeys, jwt_get_crypto_ops(), g_mismatch);
 	for (int k = 0; k < g_nkeys; k++) for (int t = 0; t < nthreads; t++) free(g_ref_tok[k][t]);
 	jwks_free(g_set);
